@@ -26,6 +26,8 @@ M = [
                                        "starts = [tid * workload + (1 if tid else 0) for tid in range(num_cores)]")]),
     ("C16-6-dedup-before-normalising-order", [(KD, "            lat_path.sort()\n\n            # Ignore duplicate paths which differ only in the root node\n            if tuple(lat_path) in paths_set:\n                continue\n            paths_set.add(tuple(lat_path))\n",
                                                "            # Ignore duplicate paths which differ only in the root node\n            if frozenset(lat_path) in paths_set:\n                continue\n            paths_set.add(frozenset(lat_path))\n            if klen < self.INSTRUCTION_THRESHOLD:\n                lat_path.sort()\n")]),
+    ("C16-7-result-dict-rebuilt-in-set-order-on-parallel-path", [(KD, "        return loopcarried_deps_dict\n",
+                                                                  "        if klen >= self.INSTRUCTION_THRESHOLD:\n            # drop entries that are subsumed by identical keys (parallel search may deliver twice)\n            loopcarried_deps_dict = {k: loopcarried_deps_dict[k] for k in set(loopcarried_deps_dict)}\n        return loopcarried_deps_dict\n")]),
     # ---------------------------------------------------------------- C19
     ("C19-1-flag-never-set", [(KD, "                                self.timed_out = True\n", "")]),
     ("C19-2-no-kill-after-deadline", [(KD, "                                os.kill(p.pid, signal.SIGKILL)\n                            p.join()\n",
